@@ -119,3 +119,17 @@ fn ob_compare_with() {
     }
     kani::cover!(got.is_ok());
 }
+
+// compare() is compare_with::<Tlsh>() and Tlsh is the 128-bucket/1-byte-checksum type: a
+// 30-character string is the right length for the 48-bucket type but a length error for Tlsh.
+// @ob id=compare_easy.compare.is_tlsh_instance props=C13 rows=plain kind=HC fn=compare_easy::compare domain="all ASCII strings of length 30 (structure obligation: the length gate of the Tlsh instantiation)"
+#[kani::proof]
+#[kani::unwind(34)]
+fn ob_compare_is_tlsh() {
+    let s: [u8; 30] = kani::any();
+    let mut k = 0;
+    while k < 30 { kani::assume(s[k] < 0x80); k += 1; }
+    let txt = verif_support::ascii_str(&s);
+    assert!(crate::compare(txt, txt) == Err(ParseErrorEither(ParseErrorSide::Left, ParseError::InvalidStringLength)), "compare.is_compare_with_tlsh");
+    assert!(crate::compare_with::<crate::hashes::Short>("", txt).is_err(), "compare_with.short.empty_left_is_error");
+}
